@@ -278,7 +278,7 @@ pub fn run_on_this_thread(plan: &Plan, keep_trace: bool) -> RunOutput {
         out.cov.reobserved = cfg.reconfigure.is_some() as u64;
     } else {
         // ---- misuse injected at a random point of an ordinary history
-        let mut sim = Sim::new(64);
+        let mut sim = Sim::new(2000);
         let calls = sim.calls.clone();
         let mut injected = false;
         let mut outcome: Option<Step> = None;
